@@ -158,8 +158,8 @@ func runTeardownCase[T any](codec Codec[T], tc tdCase) *tdOutcome {
 	case "cancel":
 		p.A.Cancel()
 	case "readerr":
-		plan.FailAt("A.readRes", plan.Counts()["A.readRes"]+1)
-		plan.FailAt("A.decode", plan.Counts()["A.decode"]+1)
+		plan.FailNext("A.readRes")
+		plan.FailNext("A.decode")
 		// provoke a read: B answers a call from A
 		go ra.Echo(context.Background(), 1, "x")
 	case "peer-cancel":
@@ -279,7 +279,7 @@ func runTeardownSuite(rep *Report, tier string, seed int64, prop string) {
 		"(silent / keeps sending requests / its handlers' responses arrive); then the application cancels the context and fails the transport. C15 oracle: no goroutine with a panrpc frame outside application code survives, " +
 		"no closure registration, nothing enumerated. C14 oracle: exactly one connect and one disconnect notification per hook kind with one id, enumeration = announced set. distinct = matrix cells × repetitions"
 	ks := []int{0, 2}
-	reps := 2
+	reps := 6
 	if tier == "thorough" {
 		ks = []int{0, 1, 3, 8}
 		reps = 25
